@@ -372,6 +372,8 @@ def cls_src(t, defs):
     posts = [f for f in own_fields if f.get('post') is not None]
     if posts:
         lines.append('    def __post_init__(self):')
+        if inh and any(f.get('post') is not None for f in info['fields'][:inh['n']]):
+            lines.append('        super().__post_init__()')      # an ancestor assigns its own init=False fields there
         for f in posts:
             lines.append(f'        self.{f["name"]} = {lit_src(f["post"])}')
     src = '\n'.join(lines) + '\n'
